@@ -66,6 +66,23 @@ CLAIMED = {
              "DESIGN F18). order_by arguments of children/parents are covered by C11's model, not here.",
         technique="Coq proof (relation table = Parent graph and its composition; query inverses) + differential correspondence on generated DAGs",
         design="4 (C02)"),
+    "C04": dict(
+        text="Coq theorems (Properties/C04.v, 16 statements, closed under the global context) about the model of "
+             "_id_handler, the per-base counters and the importer: one lemma per id_spec form (first present attribute; an "
+             "absent/empty attribute defers to the next key; several values -> ValueError, never truncation; ':field:' forms; "
+             "callables returning None/''/a string/'autoincrement:X' for ANY callable; dict entry or <featuretype>_<n>); the i-th "
+             "request for base k gets k_<previous+count>; autoid is injective (via a proved str(int)/int(str) round trip), so "
+             "generated keys never coincide; keys are unique after EVERY import (all inputs, strategies, specs, from any "
+             "database with unique keys); db[key] returns exactly the row stored under key and reports absent keys. Tied to "
+             "create.py/interface.py by 1.5k imports per quick run over 22 id_spec forms x features having/lacking/multiply "
+             "defining id attributes, with the stored tables and every db[key] (by string and by Feature, present and absent) "
+             "compared inside Coq.",
+        note="Trusted: Coq kernel + vm_compute; Model/Import.v hand-written, tied by the correspondence; user callables are a "
+             "Section variable in the theorems and six concrete functions in the correspondence. ':start:'/':end:' id_specs "
+             "(integer keys) are outside the modelled domain. A generated key colliding with an explicit id (F9) is classified "
+             "as a known-finding class, not excused silently.",
+        technique="Coq proof (id_handler case lemmas, counter arithmetic, key-uniqueness invariant by induction over imports) + differential correspondence",
+        design="4 (C04)"),
 }
 
 PENDING_REASON = "machinery for this property is not built yet in this revision (planned, see DESIGN.md section 4/9); not claimed until its check exists"
